@@ -235,10 +235,16 @@ func vhEKU() {
 	var list []string
 	var want []byte
 	for i := 0; i < n; i++ {
-		k := vChoose(vName("usage", i), 7)
+		k := vChoose(vName("usage", i), 8)
 		if k < 6 {
 			list = append(list, vEkuNames[k])
 			want = append(want, vDerOid([]int{1, 3, 6, 1, 5, 5, 7, 3, vEkuLast[k]})...)
+		} else if k == 7 {
+			// arcs written with leading zeros (the schema's oid pattern allows them) are decimal numbers
+			d := vBytes(vName("zarc", i), 2)
+			vAssume(vAnd(vAnd(d[0] >= '0', d[0] <= '9'), vAnd(d[1] >= '0', d[1] <= '9')))
+			list = append(list, "1.2.03.0"+string(d))
+			want = append(want, 0x06, 0x03, 0x2a, 0x03, (d[0]-'0')*10+(d[1]-'0'))
 		} else {
 			d := vByte(vName("arc", i))
 			vAssume(vAnd(d >= '0', d <= '9'))
